@@ -170,6 +170,9 @@ fn model_a(srcs: &[usize], root: Option<&str>, contents_mask: u64, tok_srcs: &[u
 
 #[derive(Clone, Debug, Serialize, Deserialize)]
 struct HCase {
+    /// all sources carry the same name (each still has its own function map)
+    #[serde(default)]
+    dup: bool,
     ns: usize,
     fm_mask: u64,
     tok_srcs: Vec<usize>,
@@ -178,7 +181,7 @@ struct HCase {
 
 fn hermes_doc(c: &HCase) -> Vec<u8> {
     let m = RMap {
-        sources: (0..c.ns).map(|i| format!("dir/s{i}.js")).collect(),
+        sources: (0..c.ns).map(|i| if c.dup { "dir/same.js".to_string() } else { format!("dir/s{i}.js") }).collect(),
         names: vec!["n".into()],
         contents: (0..c.ns).map(|i| Some(format!("c{i}"))).collect(),
         tokens: c.tok_srcs.iter().enumerate().map(|(k, &s)| RTok::new(0, k as u32, Some((s as u32, 0, 1, Some(0))))).collect(),
@@ -232,6 +235,17 @@ fn check_hermes(c: &HCase) -> Option<(String, String)> {
     match r {
         Ok(x) => x,
         Err(p) => Some((format!("hermes/panic/{}", panic_class(&p)), format!("panicked: {p}\ndocument: {}", String::from_utf8_lossy(&doc)))),
+    }
+}
+
+/// with duplicate source names every scope change has one cause: the sources are merged by name
+fn dup_sig(c: &HCase, sig: String) -> String {
+    if c.dup && sig.starts_with("hermes/scope-") {
+        "hermes/scope-changes/duplicate-source-names".to_string()
+    } else if c.dup {
+        format!("{sig}/duplicate-source-names")
+    } else {
+        sig
     }
 }
 
@@ -322,7 +336,10 @@ pub fn run(run: &mut Run) -> Finish {
                 for ta in 0..(ns as u64).pow(nt as u32) {
                     for ob in 0..4 {
                         for prefixes in [0usize, 1] {
-                            hcases.push(HCase { ns, fm_mask, tok_srcs: seq_of(ta, ns as u64, nt), opts: Opts { with_names: ob & 1 == 1, with_contents: ob & 2 == 2, prefixes } });
+                            hcases.push(HCase { dup: false, ns, fm_mask, tok_srcs: seq_of(ta, ns as u64, nt), opts: Opts { with_names: ob & 1 == 1, with_contents: ob & 2 == 2, prefixes } });
+                            if ns >= 2 && nt <= 2 && prefixes == 0 {
+                                hcases.push(HCase { dup: true, ns, fm_mask, tok_srcs: seq_of(ta, ns as u64, nt), opts: Opts { with_names: ob & 1 == 1, with_contents: ob & 2 == 2, prefixes } });
+                            }
                         }
                     }
                 }
@@ -330,9 +347,10 @@ pub fn run(run: &mut Run) -> Finish {
         }
     }
     let nh = hcases.len() as u64;
-    run.par_slice("H: Hermes maps with 1..3 sources, every {function map, null} assignment, every token sequence of <= 3/4 over the sources (every first-use order, unreferenced sources), 8 option sets", 3, nh, |idx, l| {
+    run.par_slice("H: Hermes maps with 1..3 sources, every {function map, null} assignment, every token sequence of <= 3/4 over the sources (every first-use order, unreferenced sources), 8 option sets; plus the same with all sources carrying one name", 3, nh, |idx, l| {
         let c = &hcases[(idx & 0xffff_ffff) as usize];
         if let Some((sig, what)) = check_hermes(c) {
+            let sig = dup_sig(c, sig);
             l.violation(idx, Viol::new(format!("C09/{sig}"), what, json!({"kind": "hermes", "case": serde_json::to_value(c).unwrap()})));
         }
         l.case(!c.tok_srcs.is_empty(), h64(&(c.ns, c.fm_mask, c.tok_srcs.len(), c.tok_srcs.first(), c.opts.prefixes)));
@@ -353,7 +371,7 @@ pub fn recheck(case: &Value) -> Vec<Viol> {
         Some("regular") => serde_json::from_value::<ACase>(case["case"].clone()).ok().and_then(|c| run_a(&c).0).into_iter().collect(),
         Some("hermes") => {
             let Ok(c) = serde_json::from_value::<HCase>(case["case"].clone()) else { return vec![] };
-            check_hermes(&c).map(|(s, w)| Viol::new(format!("C09/{s}"), w, case.clone())).into_iter().collect()
+            check_hermes(&c).map(|(s, w)| Viol::new(format!("C09/{}", dup_sig(&c, s)), w, case.clone())).into_iter().collect()
         }
         _ => vec![],
     }
